@@ -1252,7 +1252,7 @@ pub fn run(ctx: &mut Ctx) {
     let sizes: Vec<(u64, usize, usize)> = if quick {
         vec![(1500, 9, 40), (150, 41, 200), (24, 201, 700), (8, 1200, 2000)]
     } else {
-        vec![(30_000, 9, 40), (3000, 41, 200), (300, 201, 700), (90, 1200, 2000)]
+        vec![(30_000, 9, 40), (3000, 41, 200), (360, 201, 700), (130, 1200, 2000)]
     };
     for (cnt, lo, hi) in sizes {
         for it in 0..cnt {
